@@ -8,6 +8,7 @@ import (
 	"verif/ref"
 
 	"github.com/orbs-network/lean-helix-go/services/interfaces"
+	"github.com/orbs-network/lean-helix-go/state"
 )
 
 type sample struct{ h, v uint64 }
@@ -325,6 +326,37 @@ func init() {
 		}
 		finish(x, n, nil, "")
 	})
+
+	// S-state: the State object alone. One writer (the worker's role: view change, then next height), one reader
+	// taking two (height, view) snapshots. Every snapshot must be a state that existed, and snapshots never go back.
+	register(&Scenario{Name: "S-state", Props: []string{"C13"}, MaxFires: 0, Horizon: 2000, Body: func(x *X) {
+		st := state.NewState()
+		s := x.S
+		s.Thread("writer", func() {
+			st.SetHeightAndResetView(1)
+			st.SetView(1)
+			st.SetView(2)
+			st.SetHeightAndResetView(2)
+			st.SetView(1)
+		})
+		var ss []sample
+		s.Thread("reader", func() {
+			for i := 0; i < 3; i++ {
+				hv := st.HeightView()
+				ss = append(ss, sample{uint64(hv.Height()), uint64(hv.View())})
+			}
+		})
+		s.Run(2000)
+		legal := map[sample]bool{{0, 0}: true, {1, 0}: true, {1, 1}: true, {1, 2}: true, {2, 0}: true, {2, 1}: true}
+		for _, v := range ss {
+			if !legal[v] {
+				x.Bad("C13", "state-snapshot-never-existed", "observed (height,view) = %v, which the node never was in", v)
+			}
+		}
+		checkSamples(x, ss)
+		x.Outcome = fmt.Sprint(ss)
+	}})
+	quickBound["S-state"], thoroughBound["S-state"] = 6, 9
 
 	// S-idle+cancel: cancellation of an idle node with the election timer armed (C16 only).
 	registerBoth("S-idle", []string{"C16"}, 1, 4, 6, func(x *X, cancel bool) {
